@@ -420,6 +420,19 @@ func (p *Peer) Poll() *Reply {
 	return nil
 }
 
+// PollFrom returns the reply at position *pos if it has arrived and advances
+// *pos (a private cursor, independent of Next/Poll).
+func (p *Peer) PollFrom(pos *int) *Reply {
+	p.mu.Lock()
+	defer p.mu.Unlock()
+	if *pos < len(p.replies) {
+		r := p.replies[*pos]
+		*pos++
+		return r
+	}
+	return nil
+}
+
 // All returns every reply received so far (consumed or not).
 func (p *Peer) All() []*Reply {
 	p.mu.Lock()
@@ -432,6 +445,21 @@ func (p *Peer) HasReply(tag uint16) *Reply {
 	p.mu.Lock()
 	defer p.mu.Unlock()
 	for _, r := range p.replies {
+		if r.Msg.Tag == tag {
+			return r
+		}
+	}
+	return nil
+}
+
+// HasReplyFrom is HasReply restricted to replies at list position >= from.
+func (p *Peer) HasReplyFrom(tag uint16, from int) *Reply {
+	p.mu.Lock()
+	defer p.mu.Unlock()
+	if from > len(p.replies) {
+		return nil
+	}
+	for _, r := range p.replies[from:] {
 		if r.Msg.Tag == tag {
 			return r
 		}
